@@ -67,6 +67,11 @@ def check(ctx):
     srv_cls = ctx.index.get_class(K.SCHED, 'Server')
     _nz1, _srv1, _ncls1, put1, _rm1, _pred1 = c01._roles(ctx)
     c01._restore(ctx, srv_cls, put1, rule='C07.4')
+    # shared with C01.2: what Server.remove gives back is exactly what
+    # Server.put took (the same additions in reverse) - a victim that was
+    # displaced for nothing must fit back where it was
+    with ctx.shared({'C01': 'C07.3'}):
+        c01._pair(ctx, put1, _rm1)
     body = loop.body()
     queue = N.txt(head.ast.iter)
     # ---- C07.1 -----------------------------------------------------------
